@@ -932,7 +932,7 @@ struct static_array<T, ::boost::multi::dimensionality_type{0}, Alloc>  // NOLINT
 
 	static_array(static_array const& other, allocator_type const& alloc)  // 5b
 	: array_alloc{alloc}, ref(static_array::allocate(other.num_elements()), extensions(other)) {
-		uninitialized_copy_(other.data_elements());
+		uninitialized_copy(other.data_elements());
 	}
 
 	static_array(static_array const& other)  // 5b
